@@ -559,3 +559,84 @@ func declaredInitHashBack(c px.Context, t *gty, pt px.Type, w px.Value, gv refle
 	}
 	return ""
 }
+
+// genTaggedEmbedded: an embedded struct that is NOT the first field is an attribute like any other and its puppet tag counts
+// (taggedType.initTags skips only `i == 0 && f.Anonymous`): struct{A e; P `name=>'m'`}, the same below an embedded parent, and
+// an embedded pointer with `value=>undef` (implementation only) — for every scalar type and boundary value.  Modelled where
+// the model's type language has the shape.
+func genTaggedEmbedded(g *core.G) {
+	for _, e := range leafTypes() {
+		P := &gty{kind: "struct", fields: []gfield{{name: "PA", t: e}}}
+		Q := &gty{kind: "struct", fields: []gfield{{name: "QA", t: &gty{kind: "bool"}}}}
+		one := &gty{kind: "struct", fields: []gfield{{name: "A", t: e}, {name: "Mix", anon: true, t: P, tag: `puppet:"name=>'m'"`}}}
+		two := &gty{kind: "struct", fields: []gfield{{name: "Base", anon: true, t: Q}, {name: "A", t: e}, {name: "Mix", anon: true, t: P, tag: `puppet:"name=>'m'"`}}}
+		opt := &gty{kind: "struct", fields: []gfield{{name: "A", t: e}, {name: "Mix", anon: true, t: &gty{kind: "ptr", elem: P}, tag: `puppet:"name=>'m', value=>undef"`}}}
+		emit := func(t *gty, v string) {
+			pre := "@"
+			if inModel(t) {
+				pre = ""
+			}
+			g.Emit(pre + "refl " + t.sexp().String() + " " + v)
+			g.Emit(pre + "obj " + t.sexp().String() + " " + v)
+		}
+		zero := genVal(g.Rng, e, 0, 0)
+		emit(opt, "(st "+zero+" nil)")
+		for _, v := range boundary(e) {
+			emit(one, "(st "+zero+" (st "+v+"))")
+			emit(two, "(st (st t) "+v+" (st "+v+"))")
+			emit(opt, "(st "+v+" (p (st "+v+")))")
+		}
+	}
+}
+
+// declareDynamic: @objreg — the struct types that occur only as DYNAMIC types of interface{} values inside v are declared and
+// mapped too (after the static ones): an interface{} holding a mapped struct wraps to an instance of the declared type
+// (FromReflectedValue), and reflecting it back into the interface{} goes through attributeSlice.Reflect →
+// objectType.ReflectType → ImplementationRegistry.TypeToReflected
+func declareDynamic(c px.Context, t *gty, v reflect.Value, seen map[reflect.Type]px.Type, withParent bool) {
+	switch t.kind {
+	case "iface":
+		if !v.IsNil() {
+			if dt := gtyOf(v.Elem().Type()); dt != nil {
+				declareStructs(c, dt, seen, withParent)
+				declareDynamic(c, dt, v.Elem(), seen, withParent)
+			}
+		}
+	case "ptr":
+		if !v.IsNil() {
+			declareDynamic(c, t.elem, v.Elem(), seen, withParent)
+		}
+	case "slice", "array":
+		for i := 0; i < v.Len(); i++ {
+			declareDynamic(c, t.elem, v.Index(i), seen, withParent)
+		}
+	case "map":
+		for _, k := range v.MapKeys() {
+			declareDynamic(c, t.elem, v.MapIndex(k), seen, withParent)
+		}
+	case "struct":
+		for i, f := range t.fields {
+			declareDynamic(c, f.t, v.Field(i), seen, withParent)
+		}
+	}
+}
+
+// genMappedInIface: the registry-mapped path with the struct behind an interface{} — a POINTER to a mapped struct held by an
+// interface{} at the top, in a []interface{} (nil beside it), in a map[string]interface{} and in an interface{} field of a
+// mapped struct; every scalar type × boundary value.  (Held BY VALUE the struct comes back as a pointer to it —
+// TypeToReflected answers the normalized *S — which diffClass names iface-dynamic-type; not generated, see the notes.)
+func genMappedInIface(g *core.G) {
+	for _, e := range leafTypes() {
+		S := &gty{kind: "struct", fields: []gfield{{name: "A", t: e}}}
+		ps := (&gty{kind: "ptr", elem: S}).sexp().String()
+		outer := &gty{kind: "struct", fields: []gfield{{name: "X", t: &gty{kind: "iface"}}, {name: "B", t: S}}}
+		zero := genVal(g.Rng, e, 0, 0)
+		for _, v := range boundary(e) {
+			d := "(i " + ps + " (p (st " + v + ")))"
+			g.Emit("@objreg iface " + d)
+			g.Emit("@objreg (slice iface) (s " + d + " nil " + d + ")")
+			g.Emit("@objreg (map string iface) (m (x6b " + d + "))")
+			g.Emit("@objreg " + outer.sexp().String() + " (st " + d + " (st " + zero + "))")
+		}
+	}
+}
